@@ -1,20 +1,22 @@
 #!/bin/bash
 # usage: seedtest2.sh <patch.diff> <Cnn> [tier]
-# Like seedtest.sh, but works on scratch copies (/tmp/sv = copy of /verif with
-# the harness pointed at /tmp/sr = scratch worktree of /repo), so it can run
+# Like seedtest.sh, but works on scratch copies ($SV = copy of /verif with
+# the harness pointed at $SR = scratch worktree of /repo), so it can run
 # while other checks are building from /repo. Remove both when done:
-#   git -C /repo worktree remove --force /tmp/sr; rm -rf /tmp/sv
+#   git -C /repo worktree remove --force $SR; rm -rf $SV
 set -u
 patch=$(readlink -f "$1"); prop=$2; tier=${3:-quick}
-if [ ! -d /tmp/sr ]; then git -C /repo worktree add -q --detach /tmp/sr HEAD || exit 2; fi
-git -C /tmp/sr checkout -q --detach $(git -C /repo rev-parse HEAD) && git -C /tmp/sr checkout -- . && git -C /tmp/sr clean -fdq -e target
-mkdir -p /tmp/sv
-rsync -a --delete --exclude 'target*' --exclude work --exclude replay --exclude qd-target --exclude .git --exclude evidence /verif/ /tmp/sv/
-mkdir -p /tmp/sv/evidence
-sed -i 's|path = "/repo"|path = "/tmp/sr"|' /tmp/sv/harness/Cargo.toml
-git -C /tmp/sr apply "$patch" || { echo "patch does not apply"; exit 2; }
-(cd /tmp/sv && QV_REPO=/tmp/sr ./check "$prop" "$tier")
+SFX=${SEEDTEST_SUFFIX:-}
+SR=/tmp/sr$SFX; SV=/tmp/sv$SFX
+if [ ! -d $SR ]; then git -C /repo worktree add -q --detach $SR HEAD || exit 2; fi
+git -C $SR checkout -q --detach $(git -C /repo rev-parse HEAD) && git -C $SR checkout -- . && git -C $SR clean -fdq -e target
+mkdir -p $SV
+rsync -a --delete --exclude 'target*' --exclude work --exclude replay --exclude qd-target --exclude .git --exclude evidence /verif/ $SV/
+mkdir -p $SV/evidence
+sed -i "s|path = \"/repo\"|path = \"$SR\"|" $SV/harness/Cargo.toml
+git -C $SR apply "$patch" || { echo "patch does not apply"; exit 2; }
+(cd $SV && QV_REPO=$SR ./check "$prop" "$tier")
 rc=$?
-git -C /tmp/sr checkout -- .
+git -C $SR checkout -- .
 echo "reverted; check rc=$rc"
 exit $rc
